@@ -1,5 +1,5 @@
 From Coq Require Import NArith List Bool Arith.
-From PS Require Import Base.Chars Model.Backend Spec.Target Spec.Lex Spec.Atom Spec.Query Proofs.BackendDomP Run.Bits.
+From PS Require Import Base.Chars Model.Backend Spec.Target Spec.Lex Spec.Atom Spec.Query Spec.Ref Proofs.BackendDomP Run.Bits.
 Import ListNotations.
 Open Scope nat_scope.
 
@@ -21,11 +21,16 @@ Record scase := {
   sc_ftexts : list (nat * str);             (* field -> escape_and_quote_field text *)
   sc_vtexts : list (nat * str);             (* atom -> value text inside an in-list *)
   sc_query : str;                           (* implementation's query *)
-  sc_keys : list akey;                      (* reference predicates, numbered by position: the atoms of sc_ref *)
-  sc_ref : cond;                            (* reference meaning of the source rule *)
-  sc_natoms : nat;
-  sc_pylex : option (list ltok)             (* unused (kept for replay files of earlier runs) *)
+  sc_native_cidr : bool;                    (* the backend has a CIDR expression *)
+  sc_dets : list (str * rdet);              (* the rule's detections (items after modifiers) *)
+  sc_expr : rexpr                           (* the condition as written *)
 }.
+
+(* reference meaning of the source rule (Spec/Ref.v): combination of reference predicates, their numbering,
+   and the combination over the numbers *)
+Definition sc_rc (c : scase) : option rc := expr_ref (sc_native_cidr c) (sc_dets c) (sc_expr c).
+Definition sc_keys (c : scase) : list akey := match sc_rc c with Some r => keys_of r [] | None => [] end.
+Definition sc_ref (c : scase) : option cond := option_map (number (sc_keys c)) (sc_rc c).
 
 (* the implementation's query is read inside Coq: Spec/Lex.v splits it (theorem C01_lex_show), Spec/Atom.v
    reads every atom (theorem C01_leaf_faithful), Spec/Query.v identifies each atom with a reference
@@ -38,14 +43,14 @@ Definition judge_struct (c : scase) : N :=
   let model := show (sc_S c) at_text (lookup [] (sc_ftexts c)) (lookup [] (sc_vtexts c))
                     (conv K false (sc_tree c)) in
   let spec :=
-    match query_toks c with
-    | None => false
-    | Some ts =>
+    match query_toks c, sc_ref c with
+    | Some ts, Some ref =>
       forallb (fun m => let asg := asg_of (N.of_nat m) in
                         match tparse (lvl K) asg ts with
-                        | Some v => Bool.eqb v (den asg (sc_ref c))
+                        | Some v => Bool.eqb v (den asg ref)
                         | None => false end)
-              (seq 0 (Nat.pow 2 (sc_natoms c)))
+              (seq 0 (Nat.pow 2 (length (sc_keys c))))
+    | _, _ => false
     end in
   bits (str_eqb model (sc_query c)) spec (cfg_ok K && wfb K (sc_tree c)) (2 <=? depth (sc_tree c)).
 
